@@ -10,7 +10,10 @@ Vocabulary (JSON as handed to TLC):
            "params": {k:VAL}, "tpl": {cid: [referenced variable names]}, "shipped": [FILE], "preserve": bool,
            "node": {"vars": {k:VAL}, "default_data": str, "watch": [{"p": token, "inHome": bool, "pre": bool}]}}
   out   = {"err", "names", "paths", "vars", "final": {"captured", "vars"}, "tree": [{"path", "content": [SEG]}],
-           "dataPaths", "home", "after": {"exists": {token: bool}, "same": bool}}
+           "dataPaths", "home", "after": {"exists": {token: bool}, "same": bool},
+           "more": [{"err", "final", "tree", "dataPaths", "home", "homeExists"}]   2nd, 3rd ... node provisioned from the SAME Car
+           "varsAfter": {k: VAL}}                                                  Car.variables after all nodes were provisioned
+  inp additionally has "more": [{"vars", "default_data", "home"}], the node records of those further nodes ($NODE2, $ES2, ...)
   SEG   = {"t": cid, "vals": [[str, ...], ...]}         one rendering of a template (values of the referenced variables) or a blob
 
 Strings that are absolute paths are tokenised ($ES installation home, $NODE node root, $DATA external data root, $CARS cars
@@ -50,15 +53,25 @@ def L(xs):
 # materialisation
 # ---------------------------------------------------------------------------------------------------
 class Layout:
-    def __init__(self, root):
+    def __init__(self, root, nodes=1):
         self.root = root
         self.team = os.path.join(root, "team")
         self.cars = os.path.join(self.team, "cars", "v1")
-        self.node = os.path.join(root, "races", "r1", "rally-node")
+        self.race = os.path.join(root, "races", "r1")
+        self.node = os.path.join(self.race, "rally-node")
         self.data = os.path.join(root, "ext-data")
         self.es = os.path.join(self.node, "install", ES_DIR)
-        # longest / most specific first
         self.tokens = [(self.es, "$ES"), (self.node, "$NODE"), (self.data, "$DATA"), (self.cars, "$CARS"), (self.root, "$ROOT")]
+        # further nodes on the same host, provisioned from the same Car (mechanic.create: <race root>/<node name>): $NODE2, $ES2, ...
+        self.node_roots = [self.node]
+        self.es_homes = [self.es]
+        for j in range(2, nodes + 1):
+            nr = os.path.join(self.race, "rally-node-%d" % j)
+            self.node_roots.append(nr)
+            self.es_homes.append(os.path.join(nr, "install", ES_DIR))
+            self.tokens += [(self.es_homes[-1], "$ES%d" % j), (nr, "$NODE%d" % j)]
+        # longest / most specific first
+        self.tokens.sort(key=lambda t: -len(t[0]))
 
     def real(self, s):
         for path, tok in self.tokens:
@@ -245,29 +258,32 @@ def materialise(lay, inp, mat):
 
 
 def node_args(mat):
+    """Start arguments of every node provisioned on this host from the one composed car ([0] = first node)."""
     rnd = random.Random(mat.get("seed", 0) * 7919 + 13)
     n = rnd.randint(1, 3)
     ips = ["10.%d.%d.%d" % (rnd.randint(0, 255), rnd.randint(0, 255), rnd.randint(1, 254)) for _ in range(n)]
     names = ["rally-node-%d" % i for i in range(n)]
     me = rnd.randrange(n)
+    cluster = rnd.choice(["rally-benchmark", "verif-cluster"])
+    port = rnd.choice([9200, 39200, 19200 + rnd.randint(0, 99)])
+    local = [(names[me], port)]
+    for j in range(2, int(mat.get("nodes", 1)) + 1):
+        # as mechanic.create: same host ip, same lists of all nodes, another node name (and, here, another port)
+        names.append("rally-node-h%d" % j)
+        ips.append(ips[me])
+        local.append((names[-1], port + j - 1))
+    return [
+        {"node_name": nm, "cluster_name": cluster, "ip": ips[me], "http_port": pt, "all_node_ips": list(ips), "all_node_names": list(names)}
+        for nm, pt in local
+    ]
+
+
+def _node_vars(a, suffix):
     return {
-        "node_name": names[me],
-        "cluster_name": rnd.choice(["rally-benchmark", "verif-cluster"]),
-        "ip": ips[me],
-        "http_port": rnd.choice([9200, 39200, 19200 + rnd.randint(0, 99)]),
-        "all_node_ips": ips,
-        "all_node_names": names,
-    }
-
-
-def node_record(inp, mat):
-    """What Rally's own node variables have to be, given the arguments Rally is started with (the documented derivation)."""
-    a = node_args(mat)
-    nv = {
         "cluster_name": S(a["cluster_name"]),
         "node_name": S(a["node_name"]),
-        "log_path": S("$NODE/logs/server"),
-        "heap_dump_path": S("$NODE/heapdump"),
+        "log_path": S("$NODE%s/logs/server" % suffix),
+        "heap_dump_path": S("$NODE%s/heapdump" % suffix),
         "node_ip": S(a["ip"]),
         "network_host": S(a["ip"]),
         "http_port": S(a["http_port"]),
@@ -275,9 +291,15 @@ def node_record(inp, mat):
         "all_node_ips": S("[" + ",".join('"%s"' % x for x in a["all_node_ips"]) + "]"),
         "all_node_names": S("[" + ",".join('"%s"' % x for x in a["all_node_names"]) + "]"),
         "minimum_master_nodes": S(len(a["all_node_ips"])),
-        "install_root_path": S("$ES"),
+        "install_root_path": S("$ES%s" % suffix),
         "cluster_settings": S("{}"),
     }
+
+
+def node_record(inp, mat):
+    """What Rally's own node variables have to be, given the arguments Rally is started with (the documented derivation)."""
+    a = node_args(mat)[0]
+    nv = _node_vars(a, "")
     toks = set()
 
     def scan(vm):
@@ -300,6 +322,14 @@ def node_record(inp, mat):
     return {"vars": nv, "default_data": "$ES/data", "home": "$ES", "watch": watch}
 
 
+def more_records(mat):
+    """Node records of the 2nd, 3rd ... node provisioned from the same car."""
+    res = []
+    for j, a in enumerate(node_args(mat)[1:], start=2):
+        res.append({"vars": _node_vars(a, str(j)), "default_data": "$ES%d/data" % j, "home": "$ES%d" % j})
+    return res
+
+
 def complete(inp, mat):
     """Adds what every real run needs (mandatory variables in every config base, bin/ in the archive, Rally's node record)."""
     inp = {
@@ -316,6 +346,7 @@ def complete(inp, mat):
     if not any(f["path"] == ["bin", "elasticsearch"] for f in inp["shipped"]):
         inp["shipped"].append({"path": ["bin", "elasticsearch"], "kind": "binary", "cid": "B4"})
     inp["node"] = node_record(inp, mat)
+    inp["more"] = more_records(mat)
     return inp
 
 
@@ -344,13 +375,16 @@ def _snapshot(root):
     return snap
 
 
-def _tree(lay):
+def _tree(lay, es=None):
+    es = es or lay.es
     res = []
-    for d, dirs, files in os.walk(lay.es):
+    if not os.path.isdir(es):
+        return res
+    for d, dirs, files in os.walk(es):
         dirs.sort()
         for fn in sorted(files):
             p = os.path.join(d, fn)
-            rel = os.path.relpath(p, lay.es).split(os.sep)
+            rel = os.path.relpath(p, es).split(os.sep)
             with open(p, "rb") as fh:
                 res.append({"path": rel, "content": project_content(fh.read(), lay)})
     res.sort(key=lambda e: e["path"])
@@ -367,7 +401,23 @@ EMPTY_OUT = {
     "dataPaths": [],
     "home": "",
     "after": {"exists": {}, "same": False},
+    "more": [],
+    "varsAfter": {},
 }
+
+
+def _final(captured, lay):
+    if not captured:
+        return {"captured": False, "vars": {}}
+    fin = {"captured": True, "vars": {str(k): _proj_val(v, lay, render=True) for k, v in captured[0].items()}}
+    if any(c != captured[0] for c in captured[1:]):
+        fin["vars"]["__inconsistent__"] = S("config variables differ between config bases")
+    return fin
+
+
+def _dps(node_config, lay):
+    dps = node_config.data_paths
+    return [lay.tok(str(x)) for x in dps] if isinstance(dps, (list, tuple)) else ["py:" + lay.tok(repr(dps))]
 
 
 def execute(root, inp, mat, archive_dir):
@@ -379,7 +429,8 @@ def execute(root, inp, mat, archive_dir):
     from esrally.utils import console
 
     console.init(quiet=True)
-    lay = Layout(root)
+    args = node_args(mat)
+    lay = Layout(root, nodes=len(args))
     materialise(lay, inp, mat)
     archive = build_archive(archive_dir, inp["shipped"])
     out = copy.deepcopy(EMPTY_OUT)
@@ -404,15 +455,17 @@ def execute(root, inp, mat, archive_dir):
                 b = cand
         out["paths"].append(b if b is not None else "?" + lay.tok(str(p)))
     out["vars"] = {str(k): _proj_val(v, lay) for k, v in car.variables.items()}
-    a = node_args(mat)
-    captured = []
-    try:
+
+    def provision(j):
+        """One node from THE car object, as mechanic.create / Mechanic.start_engine do for every node id of the host."""
+        a = args[j]
+        captured = []
         installer = provisioner.ElasticsearchInstaller(
             car=car,
             java_home=None,
             node_name=a["node_name"],
             cluster_name=a["cluster_name"],
-            node_root_dir=lay.node,
+            node_root_dir=lay.node_roots[j],
             all_node_ips=a["all_node_ips"],
             all_node_names=a["all_node_names"],
             ip=a["ip"],
@@ -427,22 +480,40 @@ def execute(root, inp, mat, archive_dir):
                 return orig(source_root_path, target_root_path, config_vars)
 
             prov.apply_config = spy
-        node_config = prov.prepare({"elasticsearch": archive})
+        return prov.prepare({"elasticsearch": archive}), captured
+
+    try:
+        node_config, captured = provision(0)
     except exceptions.RallyError as e:
         out["err"] = "prepare:" + type(e).__name__
         return out
     except Exception as e:  # pylint: disable=broad-except
         out["err"] = "crash:prepare:" + type(e).__name__
         return out
-    if captured:
-        out["final"] = {"captured": True, "vars": {str(k): _proj_val(v, lay, render=True) for k, v in captured[0].items()}}
-        if any(c != captured[0] for c in captured[1:]):
-            out["final"]["vars"]["__inconsistent__"] = S("config variables differ between config bases")
-    out["tree"] = _tree(lay) if os.path.isdir(lay.es) else []
-    dps = node_config.data_paths
-    out["dataPaths"] = [lay.tok(str(x)) for x in dps] if isinstance(dps, (list, tuple)) else ["py:" + lay.tok(repr(dps))]
+    out["final"] = _final(captured, lay)
+    out["tree"] = _tree(lay)
+    out["dataPaths"] = _dps(node_config, lay)
     out["home"] = lay.tok(str(node_config.binary_path))
-    # the node has run: every candidate data directory, the logs and the installation contain something
+    more_cfg = []
+    for j in range(1, len(args)):
+        r = {"err": "none", "final": {"captured": False, "vars": {}}, "tree": [], "dataPaths": [], "home": "", "homeExists": False}
+        try:
+            nc, cap = provision(j)
+            r["final"] = _final(cap, lay)
+            r["tree"] = _tree(lay, lay.es_homes[j])
+            r["dataPaths"] = _dps(nc, lay)
+            r["home"] = lay.tok(str(nc.binary_path))
+            more_cfg.append(nc)
+        except exceptions.RallyError as e:
+            r["err"] = "prepare:" + type(e).__name__
+            more_cfg.append(None)
+        except Exception as e:  # pylint: disable=broad-except
+            r["err"] = "crash:prepare:" + type(e).__name__
+            more_cfg.append(None)
+        out["more"].append(r)
+    # the composed car after every node has been provisioned from it
+    out["varsAfter"] = {str(k): _proj_val(v, lay) for k, v in car.variables.items()}
+    # the nodes have run: every candidate data directory, the logs and the installation contain something
     for w in inp["node"]["watch"]:
         rp = lay.real(w["p"])
         if w["p"] != "$ES":
@@ -452,8 +523,11 @@ def execute(root, inp, mat, archive_dir):
     # (the tree is only compared when the installation is to be preserved; otherwise `same` is reported as false)
     before = _snapshot(lay.root) if inp["preserve"] else None
     try:
-        # as mechanic.stop / NodeMechanicActor.stop_engine do
+        # as mechanic.stop / NodeMechanicActor.stop_engine do, node after node
         provisioner.cleanup(preserve=inp["preserve"], install_dir=node_config.binary_path, data_paths=node_config.data_paths)
+        for nc in more_cfg:
+            if nc is not None:
+                provisioner.cleanup(preserve=inp["preserve"], install_dir=nc.binary_path, data_paths=nc.data_paths)
     except Exception as e:  # pylint: disable=broad-except
         out["err"] = "crash:cleanup:" + type(e).__name__
     same = False
@@ -462,4 +536,6 @@ def execute(root, inp, mat, archive_dir):
         now = _snapshot(lay.root)
         same = all(now.get(k) == v for k, v in before.items())
     out["after"] = {"exists": {w["p"]: os.path.exists(lay.real(w["p"])) for w in inp["node"]["watch"]}, "same": same}
+    for j, r in enumerate(out["more"], start=1):
+        r["homeExists"] = os.path.exists(lay.es_homes[j])
     return out
